@@ -252,8 +252,15 @@ func (v *formatter_) formatContext(collection any) {
 
 func (v *formatter_) formatFloat(float float64) {
 	var str = stc.FormatFloat(float, 'G', -1, 64)
-	if !sts.Contains(str, ".") && !sts.Contains(str, "E") {
-		str += ".0"
+	var mantissa, exponent, hasExponent = sts.Cut(str, "E")
+	if !sts.Contains(mantissa, ".") && !sts.Contains(mantissa, "I") && !sts.Contains(mantissa, "N") {
+		// The notation requires a fraction.
+		mantissa += ".0"
+	}
+	str = mantissa
+	if hasExponent {
+		// The notation does not allow leading zeros in the exponent.
+		str += "E" + exponent[:1] + sts.TrimLeft(exponent[1:], "0")
 	}
 	v.appendString(str)
 }
